@@ -388,6 +388,11 @@ impl DistinguishedName {
 				_ => return Err(Error::CouldNotParseCertificate),
 			};
 
+			// A `DistinguishedName` holds one value per attribute type: a name repeating a
+			// type (e.g. DC=com,DC=example) cannot be represented and must not be truncated.
+			if dn.get(&dn_type).is_some() {
+				return Err(Error::CouldNotParseCertificate);
+			}
 			dn.push(dn_type, dn_value);
 		}
 		Ok(dn)
